@@ -14,6 +14,7 @@ from vp.engine import SubCheck
 
 PROPERTY = "C05"
 RULE = (
+    "(extended) solver systems come in structures plain / mirror (float, invariant under swapping two halves) / mirror-int (small-integer design matrix with mirrored pairs: exact ties, several parameters leave the passive set in one step) / deconv (1D blurred-source systems with 12-40 unknowns). "
     "solver: SPD systems Z^T Z + ridge (n 1..12, m>=n rows, singular values geometric with condition 1..1e8, "
     "orthogonal factors from QR of generated matrices), right-hand sides Z^T x with x positive / zero-mean / "
     "mostly negative / arbitrary, solved by fnnls_cholesky cold (empty P_initial) and warm (production rule: sign "
